@@ -159,12 +159,12 @@ def run(pid, tier, seed, workers=None, max_cases=None):
         it = pool.imap(_run_one, list(enumerate(cases)), chunksize=chunk)
         for r in it:
             done += 1
-            agg['evals'] += r['evals']
-            agg['states'] += r['states']
-            agg['transitions'] += r['transitions']
-            agg['nontrivial'] += r['nontrivial']
+            agg['evals'] += int(r['evals'])
+            agg['states'] += int(r['states'])
+            agg['transitions'] += int(r['transitions'])
+            agg['nontrivial'] += int(r['nontrivial'])
             for k, v in r['counters'].items():
-                agg['counters'][k] = agg['counters'].get(k, 0) + v
+                agg['counters'][k] = agg['counters'].get(k, 0) + (int(v) if float(v) == int(v) else float(v))
             for k, v in r['sets'].items():
                 agg['sets'].setdefault(k, set()).update(map(_freeze, v))
             agg['digests'][r['idx']] = r['digest']
@@ -275,7 +275,7 @@ def run(pid, tier, seed, workers=None, max_cases=None):
     ev_dir = os.environ.get('VERIF_EVIDENCE_DIR') or os.path.join(VERIF, 'evidence')
     os.makedirs(ev_dir, exist_ok=True)
     with open(os.path.join(ev_dir, pid + '.json'), 'w') as fh:
-        json.dump(ev, fh, indent=1, default=repr)
+        json.dump(ev, fh, indent=1, default=_json_default)
         fh.write('\n')
 
     print(f'[{pid}] tier={tier} seed={seed} cases={len(cases)} (distinct {n_distinct_cases}) evals={agg["evals"]} '
@@ -297,5 +297,23 @@ def _freeze(x):
     return x
 
 
+def _json_default(o):
+    try:
+        import numpy
+        if isinstance(o, numpy.integer):
+            return int(o)
+        if isinstance(o, numpy.floating):
+            return float(o)
+        if isinstance(o, numpy.bool_):
+            return bool(o)
+        if isinstance(o, numpy.ndarray):
+            return o.tolist()
+    except ImportError:
+        pass
+    if isinstance(o, (set, frozenset)):
+        return sorted(o, key=repr)
+    return repr(o)
+
+
 def _jsonable(x):
-    return json.loads(json.dumps(x, default=repr))
+    return json.loads(json.dumps(x, default=_json_default))
